@@ -517,6 +517,9 @@ def _extract_block(context):
 def _expected_block(context):
     def ex(norm):
         fn = norm.body[0]
+        for n in ast.walk(fn):  # (see rt/pynorm._UnBehavior.visit_AnnAssign)
+            if isinstance(n, ast.AnnAssign) and isinstance(n.target, ast.Name):
+                n.simple = 1
         if context in ("setup", "compose"):
             return fn.body[0].body[1:]
         return fn.body[1:]
